@@ -63,6 +63,11 @@ def check(ctx, report):
     # the blob that comes back (evaluation shared with C07.R12)
     from .c07 import ecdsa_points
     ecdsa_points(ctx, report, RULE='C05.R15')
+    # an instant that is read with the zone of the machine and written as UTC moves by the offset on every parse / compose cycle:
+    # the canonical form never settles (rule shared with C11.R3)
+    from .c11 import local_time_apis
+    report.rule('C05.R16', 'no local-time API on the way from bytes to object and back (an instant does not move from one cycle to the next)')
+    local_time_apis(ctx, report, RULE='C05.R16')
     from .c18 import name_value_composers
     name_value_composers(ctx, report, rule='C05.R5')
     from .c08 import txt_chunks
